@@ -77,6 +77,34 @@ def main():
         for f in rec.get("fails", []):
             if f in VALUE_RELS:
                 c.violation(f"prefix-rewrite:{f}", f"the value changes when the operands are written with prefixes {case['p']}, {case['q']}: relation {f} fails (unit {case['u']}, magnitude {case['m']}, n={case['n']})", {"case": case})
+    # an operand replaced by the *equal* quantity written with another prefix (positive exponents): both sides are reduced to the same
+    # unprefixed unit by exact multiplications (integer factors, small dyadic magnitudes), so == must be True and < and > False.
+    # (declared ratios such as minute = 60 s are not used here: the reverse ratio 1/60 is not exact, a rounding tie)
+    REEXPR = [([["kibi", "bit", 1]], [[None, "bit", 1]], 1024), ([[None, "byte", 1]], [[None, "bit", 1]], 8), (["kilo", "meter", 1], None, 0)]
+    REEXPR = [(a, b, r) for a, b, r in REEXPR if b] + [
+        ([["kilo", "meter", 1]], [[None, "meter", 1]], 1000), ([["mebi", "second", 1]], [[None, "second", 1]], 1048576),
+        ([["kilo", "gram", 1]], [[None, "gram", 1]], 1000), ([["kibi", "meter", 1]], [[None, "meter", 1]], 1024),
+        ([["kibi", "byte", 1]], [[None, "bit", 1]], 8192), ([["mebi", "bit", 1]], [["kibi", "bit", 1]], 1024),
+        ([["kilo", "joule", 1]], [[None, "joule", 1]], 1000), ([["kilo", "meter", 2]], [[None, "meter", 2]], 1000000),
+        ([["mega", "watt", 1]], [["kilo", "watt", 1]], 1000), ([["gibi", "bit", 1]], [["mebi", "bit", 1]], 1024)]
+    SMALL = [["int", "3", "1"], ["int", "-2", "1"], ["int", "12", "1"], ["float", "5", "2"], ["float", "-7", "4"], ["float", "3", "1"],
+             ["dec", "5", "4"], ["dec", "-3", "1"], ["dec", "7", "2"], ["dec", "3", "1"]]
+    def times(m, r):
+        f = Fraction(int(m[1]), int(m[2])) * r
+        return [m[0], str(f.numerator), str(f.denominator)]
+    recases, remeta = [], []
+    for ua, ub, r in REEXPR:
+        for m in SMALL:
+            a = {"t": "qty", "m": m, "u": ua}; a2 = {"t": "qty", "m": times(m, r), "u": ub}
+            for op in ("eq", "lt", "gt"):
+                recases.append({"op": op, "l": a, "r": a2}); remeta.append((op, "fwd", ua, ub, m))
+                recases.append({"op": op, "l": a2, "r": a}); remeta.append((op, "rev", ua, ub, m))
+    for case, meta, rec in zip(recases, remeta, qdriver.run(recases)):
+        c.count(case, nontrivial=True)
+        res = rec["res"]
+        want = (meta[0] == "eq")
+        if res.get("t") != "bool" or res["b"] != want:
+            c.violation(f"reexpressed:{meta[0]}", f"{case['l']} and {case['r']} are the same quantity, but {meta[0]} gives {res}", {"case": case, "result": res})
     convtbl = O.conv_pairs(recs)
     # comparisons at (near-)ties are excluded from the exact model comparison
     keep = []
